@@ -164,15 +164,19 @@ variable {κ σ ι ο ε : Type}
 
 /-! ## out-of-band notification (push half) -/
 
+/-- the cache update of `nested_schedule_node_impl`: `if (when < next) next = when` -/
+def notifyE (now : Time) (e : Entry κ σ ο ε) : Entry κ σ ο ε :=
+  { e with next := if now < e.next then now else e.next }
+
 /-- `nested_schedule_node_impl` on the child of slot `s`, `when = now` (the parent's evaluation
     time): ignored unless the child is started (it is idle: the map node is not driving it);
-    cache `if (when < next) next = when`; observer → heap; parent `schedule_node`. -/
+    cache update; observer → heap; parent `schedule_node`. -/
 def notify (now : Time) (m : M κ σ ο ε) (s : Nat) : M κ σ ο ε :=
   match m.ent s with
   | none => m
   | some e =>
     if !e.started then m else
-    { m with ent := setEnt m.ent s (some { e with next := if now < e.next then now else e.next })
+    { m with ent := setEnt m.ent s (some (notifyE now e))
              heap := heapPush m.heap ⟨now, s, false⟩
              ps := schedNode m.ps now now }
 
@@ -191,13 +195,16 @@ structure Rec (κ σ ο ε : Type) where
   m : M κ σ ο ε
   out : CycleOut κ ο ε
 
+/-- `remove_entry_at_slot`, the entry part: stop, `pulled_when = MAX_DT`, erase the owned elements -/
+def stopE (e : Entry κ σ ο ε) : Entry κ σ ο ε :=
+  { e with started := false, pulledWhen := MAX_DT, outv := none, errv := none }
+
 /-- `remove_entry_at_slot` -/
 def removeEntry (r : Rec κ σ ο ε) (s : Nat) : Rec κ σ ο ε :=
   match r.m.ent s with
   | none => r
   | some e =>
-    { m := { r.m with ent := setEnt r.m.ent s (some { e with started := false, pulledWhen := MAX_DT,
-                                                               outv := none, errv := none }) }
+    { m := { r.m with ent := setEnt r.m.ent s (some (stopE e)) }
       out := { r.out with stopped := if e.started then r.out.stopped ++ [e.key] else r.out.stopped
                           removedOut := if e.outv.isSome then r.out.removedOut ++ [e.key] else r.out.removedOut
                           removedErr := if e.errv.isSome then r.out.removedErr ++ [e.key] else r.out.removedErr
@@ -206,23 +213,27 @@ def removeEntry (r : Rec κ σ ο ε) (s : Nat) : Rec κ σ ο ε :=
 /-- `remove_all_entries` -/
 def removeAll (r : Rec κ σ ο ε) : Rec κ σ ο ε := (List.range r.m.cap).foldl removeEntry r
 
+/-- a freshly started entry (`schedule_context = {storage, slot}`: `pulled_when = MAX_DT`) -/
+def freshE (B : Beh κ σ ι ο ε) (I : CycleIn κ ι) (key : κ) (st : σ) : Entry κ σ ο ε :=
+  { key := key, started := true, st := st, next := clampStart I.now (B.startNext key I.now (I.input key)) }
+
+/-- the entry `create_entry_at_slot` leaves in slot `s`, given what is there -/
+def createE (B : Beh κ σ ι ο ε) (I : CycleIn κ ι) (k : κ) : Option (Entry κ σ ο ε) → Entry κ σ ο ε
+  | some e => if e.started then e else freshE B I e.key (B.restart e.key I.now (I.input e.key) e.st)
+  | none => freshE B I k (B.init k I.now (I.input k))
+
 /-- `create_entry_at_slot` -/
 def createEntry (B : Beh κ σ ι ο ε) (I : CycleIn κ ι) (r : Rec κ σ ο ε) (sk : Nat × κ) : Rec κ σ ο ε :=
   let s := sk.1
   let m0 : M κ σ ο ε := { r.m with cap := max r.m.cap (s + 1) }
-  let fresh (key : κ) (st : σ) : Rec κ σ ο ε :=
-    let n := clampStart I.now (B.startNext key I.now (I.input key))
-    let e : Entry κ σ ο ε := { key := key, started := true, st := st, next := n }
-    -- a consumer scheduled for the current time on the idle, started child: push half
-    let m1 : M κ σ ο ε := { m0 with ent := setEnt m0.ent s (some e) }
-    let m2 := if n = I.now then
-        { m1 with heap := heapPush m1.heap ⟨I.now, s, false⟩, ps := schedNode m1.ps I.now I.now } else m1
-    { m := m2, out := { r.out with startedK := r.out.startedK ++ [key], touched := true } }
-  match r.m.ent s with
-  | some e =>
-    if e.started then { r with m := m0 }
-    else fresh e.key (B.restart e.key I.now (I.input e.key) e.st)
-  | none => fresh sk.2 (B.init sk.2 I.now (I.input sk.2))
+  let started := match r.m.ent s with | some e => e.started | none => false
+  if started then { r with m := m0 } else
+  let e := createE B I sk.2 (r.m.ent s)
+  let m1 : M κ σ ο ε := { m0 with ent := setEnt m0.ent s (some e) }
+  -- a consumer scheduled for the current time on the idle, started child: push half
+  let m2 := if e.next = I.now then
+      { m1 with heap := heapPush m1.heap ⟨I.now, s, false⟩, ps := schedNode m1.ps I.now I.now } else m1
+  { m := m2, out := { r.out with startedK := r.out.startedK ++ [e.key], touched := true } }
 
 /-- `map_reconcile_keys` (no source re-point) -/
 def reconcile (B : Beh κ σ ι ο ε) (I : CycleIn κ ι) (r : Rec κ σ ο ε) : Rec κ σ ο ε :=
@@ -266,16 +277,22 @@ def drainDue (now : Time) : List HE → (Nat → Option (Entry κ σ ο ε)) →
         else drainDue now xs ent (x.slot :: cand)
     else ⟨x :: xs, ent, cand⟩
 
+/-- candidates named by the outer inputs: added key-set slots, then the key-set slots of the modified
+    source elements and of the membership-changed keys (only when the key set is valid) -/
+def preCands (m : M κ σ ο ε) (I : CycleIn κ ι) : List Nat :=
+  let c1 := if I.keysValid && I.keysModified then (I.added.map (·.1)).foldl (addCand m.ent) [] else []
+  if I.keysValid then I.modSlots.foldl (addCand m.ent) c1 else c1
+
+/-- `full_scan`: refresh, not primed before this evaluation, a broadcast argument ticked, or no outer
+    input event at all (`input_event` = keys modified, broadcast modified, or a multiplexed dictionary modified) -/
+def fullScan (I : CycleIn κ ι) (wasPrimed : Bool) : Bool :=
+  (I.refresh || !wasPrimed || I.bcastModified) ||
+    !((I.keysModified || I.bcastModified) || (I.keysValid && I.muxModified))
+
 /-- `prepare_map_evaluation_slots`; result: state after the drain and the materialised slot list -/
 def prepare (m : M κ σ ο ε) (I : CycleIn κ ι) (wasPrimed : Bool) : M κ σ ο ε × List Nat :=
-  let inputEvent0 := I.keysModified || I.bcastModified
-  let fullScan0 := I.refresh || !wasPrimed || I.bcastModified
-  let c1 := if I.keysValid && I.keysModified then (I.added.map (·.1)).foldl (addCand m.ent) [] else []
-  let c2 := if I.keysValid then I.modSlots.foldl (addCand m.ent) c1 else c1
-  let inputEvent := inputEvent0 || (I.keysValid && I.muxModified)
-  let d := drainDue I.now m.heap m.ent c2
-  let fullScan := fullScan0 || !inputEvent
-  let c3 := if fullScan then (List.range m.cap).foldl (addCand d.ent) d.cand else d.cand
+  let d := drainDue I.now m.heap m.ent (preCands m I)
+  let c3 := if fullScan I wasPrimed then (List.range m.cap).foldl (addCand d.ent) d.cand else d.cand
   ({ m with heap := d.heap, ent := d.ent }, (List.range m.cap).filter (fun s => c3.contains s))
 
 /-! ## the evaluation loop -/
@@ -284,57 +301,64 @@ def prepare (m : M κ σ ο ε) (I : CycleIn κ ι) (wasPrimed : Bool) : M κ σ
 def pushPulled (heap : List HE) (e : Entry κ σ ο ε) (s : Nat) (w : Time) : Entry κ σ ο ε × List HE :=
   if e.pulledWhen = w then (e, heap) else ({ e with pulledWhen := w }, heapPush heap ⟨w, s, true⟩)
 
+/-- the PULL half at the end of an iteration: a future deadline of the child lands in the queue,
+    otherwise the lazy entry is invalidated -/
+def pull (now : Time) (heap : List HE) (e : Entry κ σ ο ε) (s : Nat) : Entry κ σ ο ε × List HE :=
+  if e.next ≠ MAX_DT ∧ e.next > now then pushPulled heap e s e.next
+  else ({ e with pulledWhen := MAX_DT }, heap)
+
+/-- what `child.evaluate` (under `fallback_on_exception` when errors are captured) does to one entry -/
+structure ChildRes (κ σ ο ε : Type) where
+  e : Entry κ σ ο ε
+  ran : Bool := false
+  out : Option ο := none
+  err : Option ε := none
+  completed : Bool := false     -- the child evaluation returned (no exception): it propagated its schedule
+  ok : Bool := true             -- false: the exception escapes the map node
+
+def childEval (B : Beh κ σ ι ο ε) (captures : Bool) (I : CycleIn κ ι) (e : Entry κ σ ο ε) : ChildRes κ σ ο ε :=
+  if e.next ≤ I.now then
+    let sr := B.step e.key I.now (I.input e.key) e.st
+    match sr.err with
+    | some x =>
+      if !captures then { e := { e with st := sr.st }, ran := true, ok := false }
+      else
+        -- `fallback_on_exception`: the error is written under the child's own key; the child's cached
+        -- `next_scheduled_time` is whatever the aborted scan left
+        { e := { e with st := sr.st, next := clampFuture I.now sr.next, errv := some x,
+                        outv := match sr.out with | some v => some v | none => e.outv }
+          ran := true, out := sr.out, err := some x }
+    | none =>
+      { e := { e with st := sr.st, next := clampFuture I.now sr.next,
+                      outv := match sr.out with | some v => some v | none => e.outv }
+        ran := true, out := sr.out, completed := true }
+  else { e := e }
+
+/-- the body of one iteration for a started child `e0` in slot `s` -/
+def evalStarted (B : Beh κ σ ι ο ε) (captures : Bool) (I : CycleIn κ ι) (r : Rec κ σ ο ε) (s : Nat)
+    (e0 : Entry κ σ ο ε) : Rec κ σ ο ε :=
+  -- re-binding of a membership-changed key can schedule the (idle) child for the current time
+  let m0 := if I.late.contains s then notify I.now r.m s else r.m
+  let e := if I.late.contains s then notifyE I.now e0 else e0
+  let c := childEval B captures I e
+  let out1 : CycleOut κ ο ε :=
+    { r.out with runs := if c.ran then r.out.runs ++ [e.key] else r.out.runs
+                 errs := match c.err with | some x => r.out.errs ++ [(e.key, x)] | none => r.out.errs
+                 modified := match c.out with | some v => r.out.modified ++ [(e.key, v)] | none => r.out.modified
+                 touched := r.out.touched || c.out.isSome
+                 ok := c.ok }
+  if !c.ok then { m := { m0 with ent := setEnt m0.ent s (some c.e) }, out := out1 } else
+  -- `propagate_nested_parent_schedule` at the end of the child's completed evaluation
+  let ps1 := if c.completed && decide (c.e.next < MAX_DT) then schedNode m0.ps I.now c.e.next else m0.ps
+  let pe := pull I.now m0.heap c.e s
+  { m := { m0 with ent := setEnt m0.ent s (some pe.1), heap := pe.2, ps := ps1 }, out := out1 }
+
 /-- one iteration of the `for (position …)` loop -/
 def evalSlot (B : Beh κ σ ι ο ε) (captures : Bool) (I : CycleIn κ ι) (r : Rec κ σ ο ε) (s : Nat) : Rec κ σ ο ε :=
   if !r.out.ok then r else
   match r.m.ent s with
   | none => r
-  | some e0 =>
-    if !e0.started then r else
-    -- re-binding of a membership-changed key can schedule the (idle) child for the current time
-    let m0 := if I.late.contains s then notify I.now r.m s else r.m
-    match m0.ent s with
-    | none => r
-    | some e =>
-      let now := I.now
-      if e.next ≤ now then
-        let sr := B.step e.key now (I.input e.key) e.st
-        let runs := r.out.runs ++ [e.key]
-        match sr.err with
-        | some x =>
-          if !captures then
-            { m := { m0 with ent := setEnt m0.ent s (some { e with st := sr.st }) }
-              out := { r.out with runs := runs, ok := false } }
-          else
-            -- `fallback_on_exception`: the error is written under the child's own key; the child's
-            -- cached `next_scheduled_time` is whatever the aborted scan left
-            let n := clampFuture now sr.next
-            let e1 : Entry κ σ ο ε := { e with st := sr.st, next := n, errv := some x,
-                                               outv := match sr.out with | some v => some v | none => e.outv }
-            let pe := if n ≠ MAX_DT ∧ n > now then pushPulled m0.heap e1 s n
-                      else ({ e1 with pulledWhen := MAX_DT }, m0.heap)
-            { m := { m0 with ent := setEnt m0.ent s (some pe.1), heap := pe.2 }
-              out := { r.out with runs := runs, errs := r.out.errs ++ [(e.key, x)]
-                                  modified := match sr.out with
-                                    | some v => r.out.modified ++ [(e.key, v)] | none => r.out.modified
-                                  touched := r.out.touched || sr.out.isSome } }
-        | none =>
-          let n := clampFuture now sr.next
-          let e1 : Entry κ σ ο ε := { e with st := sr.st, next := n,
-                                             outv := match sr.out with | some v => some v | none => e.outv }
-          -- `propagate_nested_parent_schedule` at the end of the child's completed evaluation
-          let ps1 := if n ≥ MAX_DT then m0.ps else schedNode m0.ps now n
-          let pe := if n ≠ MAX_DT ∧ n > now then pushPulled m0.heap e1 s n
-                    else ({ e1 with pulledWhen := MAX_DT }, m0.heap)
-          { m := { m0 with ent := setEnt m0.ent s (some pe.1), heap := pe.2, ps := ps1 }
-            out := { r.out with runs := runs
-                                modified := match sr.out with
-                                  | some v => r.out.modified ++ [(e.key, v)] | none => r.out.modified
-                                touched := r.out.touched || sr.out.isSome } }
-      else
-        let pe := if e.next ≠ MAX_DT ∧ e.next > now then pushPulled m0.heap e s e.next
-                  else ({ e with pulledWhen := MAX_DT }, m0.heap)
-        { r with m := { m0 with ent := setEnt m0.ent s (some pe.1), heap := pe.2 } }
+  | some e0 => if !e0.started then r else evalStarted B captures I r s e0
 
 /-- the second drain loop (end of `map_evaluate_impl`) -/
 def drainFinal (now : Time) : List HE → (Nat → Option (Entry κ σ ο ε)) → List HE × (Nat → Option (Entry κ σ ο ε))
